@@ -89,7 +89,7 @@ def u_b_phenotype(ctx):
             def __init__(self):
                 self.draws = []
 
-            def multivariate_normal(self, mean, cov, size=None):
+            def multivariate_normal(self, mean, cov, size=None, check_valid="warn", tol=1e-8, **kw):
                 k = len(mean)
                 shp = (k,) if size is None else (size, k)
                 out = barr.fresh("z%d" % len(self.draws), shp, "float64")
